@@ -415,7 +415,7 @@ def gen_meta_session(r):
         for v in r.sample(vs, min(len(vs), r.randint(2, 3))):
             names.add(v)
         names.add(b)
-    for w in list(names)[:3]:
+    for w in sorted(names)[:3]:       # sorted: independent of PYTHONHASHSEED
         for x in r.sample(neighbours(r, w), 2):
             names.add(x)
     names = sorted(x for x in names if valid_account(x))[:18]
